@@ -316,6 +316,42 @@ def run_inspector_transparency(tier, log, seed):
                       f"the previous handler is not invoked exactly once with the wrapper's own arguments and the outcome Inspector::{hook} returned for the outcome given, or its result is not returned")
         except mir.Unsupported as e:
             cx.inconcl.append(f"{name}: {e}")
+    # ---- last_frame_return: the hook of the result's own kind sees the outcome, its answer is stored back, the previous handler runs once
+    name = "last_frame_return-wrapper"
+    cl = [f for n, f in closures if re.search(r"discriminant\(\(\*_3\)\)", f.text) and re.search(r"as Inspector<DB>>::call_end\(", f.text)]
+    if len(cl) != 1 or variants != ["Call", "Create", "EOFCreate"]:
+        cx.unrecognised(name, f"{len(cl)} closures match on the frame result / FrameResult variants {variants}")
+    else:
+        fn = cl[0]
+        HOOKS = {"Call": "call_end", "Create": "create_end", "EOFCreate": "eofcreate_end"}
+        rules = [(r"as Inspector<DB>>::%s$" % h, f"record:h{v}:4;count:n{v};tag:{77 + i}") for i, (v, h) in enumerate(HOOKS.items())] + [
+                 (r" as Fn<\(&mut .*Context<.*>, &mut FrameResult\)>>::call$", f"record:prev:2;count:prevcalls;tag:{PREV}"),
+                 (r"as Deref>::deref$|as DerefMut>::deref_mut$|as Clone>::clone$", "arg:0"), (r"get_inspector$", "tag:66")]
+        consts = [BOXREF, (r"^&mut \(\(\(\*_3\) as (\w+)\)\.0: ", lambda m, env: str(800 + (variants.index(m.group(1)) if m.group(1) in variants else 9)))]
+        fl = mirflow.Flow(fn, rules, consts, store_records=[(r"^\(\*(_\d+)\)$", "payload")], store_rules=[(r"^\(", "stores")])
+        try:
+            decls, asserts, cells, order, returns, out = fl.encode()
+            dv = [n_ for n_, what in fl.notes if what == "discriminant((*_3))"]
+            if len(dv) != 1:
+                cx.unrecognised(name, "no match on the frame result's kind")
+            else:
+                D = dv[0]
+                per = []
+                for b in returns:
+                    g = lambda c: out(c, b)
+                    arms = "false"
+                    for i, v in reversed(list(enumerate(variants))):
+                        others = " ".join(f"(= {g('@n' + o)} 0)" for o in variants if o != v)
+                        arm = (f"(and (= {g('@n' + v)} 1) {others} (= {g('@h' + v + '.3')} {800 + i}) (= {g('@payload')} 1) (= {g('@payload.base')} {800 + i}) (= {g('@payload.val')} {77 + i}) (= {g('@stores')} 1))")
+                        arms = f"(ite (= {D} {i}) {arm} {arms})"
+                    ok = f"(and {arms} (= {g('@prevcalls')} 1) (= {g('@prev.1')} {mirflow.combine(['arg_2', 'arg_3'])}) (= {g('_0')} {PREV}))"
+                    per.append(f"(and on_{b} (not {ok}))")
+                wit = [(v, "(or " + " ".join(f"(and on_{b} (= {D} {i}))" for b in returns) + ")") for i, v in enumerate(variants)]
+                cx.decide(name, decls, asserts, order, [f"(>= {D} 0)", f"(< {D} 3)"], "(or " + " ".join(per) + ")", wit, [D],
+                          "the *_end hook called is not the one of the frame result's kind, or it does not see that result's outcome, or its answer is not stored back, or the previous handler is not "
+                          "invoked exactly once with the wrapper's own arguments")
+        except (mir.Unsupported, KeyError) as e:
+            cx.unrecognised(name, f"not encodable: {e}")
     return cx.finish(detail)
 
 
